@@ -15,6 +15,38 @@ else:
     unichr_ = chr
 
 
+_HB = {"fd": None, "n": 0}
+
+
+def hb(item):
+    """Heartbeat: tells the harness which input the driver is about to hand to the library (file named by VERIF_HB).  The
+    harness reads it to name the input of a call that does not return (Returns.tla: every call returns); nothing else uses it."""
+    import os
+    if _HB["fd"] is None:
+        p = os.environ.get("VERIF_HB")
+        _HB["fd"] = os.open(p, os.O_WRONLY | os.O_CREAT, 0o644) if p else -1
+    if _HB["fd"] < 0:
+        return
+    _HB["n"] += 1
+    try:
+        data = json.dumps({"n": _HB["n"], "item": item}, ensure_ascii=True, default=repr)[:3000]
+    except Exception:  # noqa
+        data = json.dumps({"n": _HB["n"], "item": repr(item)[:2000]})
+    if not isinstance(data, bytes):
+        data = data.encode("ascii", "replace")
+    try:
+        os.lseek(_HB["fd"], 0, 0)
+        os.write(_HB["fd"], data + b"\n" + b" " * max(0, 3100 - len(data)))
+    except OSError:
+        pass
+
+
+def hb_iter(items):
+    for it in items:
+        hb(it)
+        yield it
+
+
 def esc(s):
     if not isinstance(s, text_type):
         s = s.decode("utf-8", "replace") if isinstance(s, bytes) else text_type(s)
